@@ -1301,12 +1301,22 @@ func RunSession(spec *SessSpec) *Trace {
 				s.bgWG.Wait()
 			}
 		case "breakfile": // the directory of the checkpoint file disappears: the next file save is rejected by the file system
-			if tr.FilePath != "" {
+			if tr.FilePath != "" && st.Sel == "rename" {
+				// ... or the file itself is replaced by a directory: a temporary file can still be written next to it, moving it
+				// into place is what the file system refuses
+				_ = os.Rename(tr.FilePath, tr.FilePath+".was")
+				_ = os.Mkdir(tr.FilePath, 0o755)
+				env.Log.Add(evlog.Rec{K: "ctl.breakfile", VB: -1, S: "rename"})
+			} else if tr.FilePath != "" {
 				_ = os.Rename(filepath.Dir(tr.FilePath), filepath.Dir(tr.FilePath)+".gone")
 				env.Log.Add(evlog.Rec{K: "ctl.breakfile", VB: -1})
 			}
 		case "fixfile":
-			if tr.FilePath != "" {
+			if tr.FilePath != "" && st.Sel == "rename" {
+				_ = os.Remove(tr.FilePath)
+				_ = os.Rename(tr.FilePath+".was", tr.FilePath)
+				env.Log.Add(evlog.Rec{K: "ctl.fixfile", VB: -1, S: "rename"})
+			} else if tr.FilePath != "" {
 				_ = os.Rename(filepath.Dir(tr.FilePath)+".gone", filepath.Dir(tr.FilePath))
 				env.Log.Add(evlog.Rec{K: "ctl.fixfile", VB: -1})
 			}
